@@ -1028,3 +1028,17 @@ Proof.
     rewrite bool_decide_eq_false_2 in Hrun by exact Hord. cbn [negb] in Hrun.
     injection Hrun as <- <-. split; [done|]. split_and!; try done. by left.
 Qed.
+
+(** a checker for [dvars_wf] *)
+Definition dvars_wf_b (dvars : dvars_t) (s : st) : bool :=
+  bool_decide (NoDup (dvars.*1)) &&
+  bool_decide (merge_sort le (dlevels dvars) = seq 0 (length dvars)) &&
+  bool_decide (NoDup (b2v dvars).*1) &&
+  bool_decide ((list_to_set (b2v dvars).*1 : gset nat) = dom (vars s)).
+Lemma dvars_wf_b_sound dvars s : dvars_wf_b dvars s = true → dvars_wf dvars s.
+Proof.
+  unfold dvars_wf_b. intros [[[H1 H2]%andb_true_iff H3]%andb_true_iff H4]%andb_true_iff.
+  apply bool_decide_eq_true in H1, H2, H3, H4. split; try done.
+  - rewrite <- H2. symmetry. apply merge_sort_Permutation.
+  - intros b. by rewrite <- elem_of_dom, <- H4, elem_of_list_to_set.
+Qed.
